@@ -93,6 +93,11 @@ func (t Websocket) Supports(r *http.Request) bool {
 
 func (t Websocket) Do(w http.ResponseWriter, r *http.Request, exec graphql.GraphExecutor) {
 	t.injectGraphQLWSSubprotocols()
+	if t.Upgrader.Error == nil {
+		// a failed handshake is answered below with a GraphQL error; the upgrader's default
+		// would write a plain-text body of its own in front of it
+		t.Upgrader.Error = func(http.ResponseWriter, *http.Request, int, error) {}
+	}
 	ws, err := t.Upgrader.Upgrade(w, r, http.Header{})
 	if err != nil {
 		log.Printf("unable to upgrade %T to websocket %s: ", w, err.Error())
